@@ -96,4 +96,82 @@ PROPS = {
                     'and every state component outside the row\'s footprint is unchanged',
         not_decided=['instructions whose bodies are external (listed under out_of_reach) carry no checked contract'],
     ),
+    'C01': dict(
+        level='proof',
+        units=['all'],
+        classes=['safety', 'termination', 'invariant', 'assert'],
+        label_re=r'^$',
+        explanation='every function of the crate that Verus can translate is checked panic-free (no overflow, division by zero, out-of-bounds index, failed unwrap/expect, '
+                    'violated std precondition) for all inputs under the resource envelope, and terminating; step() dispatches only to registered instruction functions (A-dispatch), '
+                    'so the per-function results compose to "single-stepping never panics"; run() adds its own loop',
+        not_decided=['bodies under external_body (listed in out_of_reach): printing (core::fmt), rand internals, EXEC.CMD (Command::spawn().expect -- the property assumes a harmless target), '
+                     'the parser (C03), Graph methods using closures, sorts/sums with iterator adapters (bounded Kani stand-ins in the thorough tier)',
+                     'host stack overflow from recursion on deeply nested items, allocation failure: outside the envelope (C15)',
+                     'termination of the rejection-sampling loop in random_bool_vector is probabilistic (exec_allows_no_decreases_clause)'],
+        assumptions=['ENVELOPE: every stack, vector, record and code item is smaller than 2^31-1 (C01\'s stated resource envelope); ring-buffer capacities in 1..2^30',
+                     'float lemma L1 (assume in random_bool_vector) and L2 (axiom on Normal::new): discharged bit-precisely by Kani in the thorough tier'],
+        thorough=True,
+    ),
+    'C08': dict(
+        level='proof',
+        units=['path:item::Item::*', 'path:item::PushType::*', 'nameglob:CODE.*', 'path:stack::PushStack::*'],
+        label_re=r'^C(08|04|05|06|07|10|12)',
+        all_labels_in_scope=True,
+        explanation='Item::size == points, Item::traverse == nth_point (depth first, top first), Item::equals == deep_eq, Item::contains == first_pos (with the lemma: the point at first_pos is deep-equal to the pattern, '
+                    'i.e. POSITION returns an index at which EXTRACT returns the searched item), CODE.SIZE/EXTRACT/POSITION/LENGTH/NULL/ATOM/CAR/CDR/CONS/LIST/FROM* rows',
+        not_decided=['CODE.INSERT / Item::insert: only panic-freedom, termination and "an out-of-range index changes no size" are proved; the replaced position (replace_idx = depth-1) is wrong after a nested list '
+                     '(confirmed natively: `( CODE.QUOTE 99 CODE.QUOTE ( ( 1 ) 2 3 ) 3 CODE.INSERT )` gives ( ( 1 ) 2 99 )): no contract states the documented result, so this is not a checked obligation',
+                     'CODE.CONTAINER / CODE.SUBST / Item::container / Item::substitute: operand handling, shapes and termination only',
+                     'CODE.MEMBER / CODE.CONTAINS / CODE.DISCREPANCY / CODE.= compare printed strings (str::contains, to_string): outside Verus; bodies external',
+                     'CODE.NTH / CODE.APPEND: operand handling and footprint only'],
+    ),
+    'C12': dict(
+        level='proof',
+        units=['path:random::CodeGenerator::decompose', 'path:random::CodeGenerator::random_code_with_size', 'path:random::CodeGenerator::random_code',
+               'path:random::Standard::Distribution::sample', 'name:CODE.RAND', 'path:item::Item::size'],
+        explanation='relative to the RNG contract (rand stubs): decompose appends positive parts summing to the request; random_code_with_size(n) has exactly n points for every n >= 1 (with termination); '
+                    'random_code(m) is None for m <= 1 and has 1..m-1 points otherwise; CODE.RAND never exceeds |n| nor max-points-in-random-expressions',
+        not_decided=['leaf composition (instruction from the supplied list / NOOP, bound name unless a new one is drawn): existing_random_name collects keys().cloned() (outside Verus)',
+                     '"executable and printable under C01 and C11" is a cross-reference'],
+        assumptions=['R2: rand 0.8 / names contracts as documented (gen_range panics on an empty range and returns a value inside it; Uniform::from(a..b) requires a < b)'],
+    ),
+    'C13': dict(
+        level='proof',
+        units=['path:random::CodeGenerator::random_*', 'name:INTEGER.RAND', 'name:FLOAT.RAND', 'name:BOOLEAN.RAND', 'name:BOOLVECTOR.RAND', 'name:INTVECTOR.RAND',
+               'name:FLOATVECTOR.RAND', 'name:NAME.RAND', 'name:NAME.RANDBOUNDNAME'],
+        explanation='relative to the RNG contract: INTEGER.RAND / FLOAT.RAND values inside [min, max) and nothing when min >= max; random_int_vector length and element range, None for size < 0 or max <= min; '
+                    'random_float_vector length, None for a negative size, no unwrap of a failed Normal::new; random_bool_vector length, validated sparsity, every drawn index inside the vector',
+        not_decided=['"every position able to become TRUE" is a possibility (exists-run) property; its safety shadow -- indices are drawn from the whole range 0..size -- is what the gen_range contract checks',
+                     'exact number of flipped bits (count invariant) and the rounding of sparsity*size: float arithmetic',
+                     'NAME.RANDBOUNDNAME returns a bound name: existing_random_name is outside Verus',
+                     'termination of the rejection loop (probabilistic)'],
+        assumptions=['float lemmas L1, L2 (Kani, thorough tier)'],
+        thorough=True,
+    ),
+    'C18': dict(
+        level='proof',
+        units=['nameglob:GRAPH.*', 'path:buffer::PushBuffer::*'],
+        explanation='GRAPH.* instruction rows: operand handling, which stacks may change, the graph stack keeps its depth and only the newest graph may change (older snapshots are untouched), '
+                    'DUP pushes a copy of the newest graph (Clone = structural copy, A-clone), history reads go through PushBuffer::get (C17)',
+        not_decided=['Graph methods (add_node, add_edge, remove_*, set_state, get/set_weight, filter, diff) use HashMap::get_mut/iter_mut/retain/position with closures: bodies external or without functional contracts; '
+                     'the set-model claims (edges connect existing nodes, one edge per pair, counts, query results, textual diff) are NOT decided',
+                     'GRAPH.EDGE*HISTORY (println!) is external'],
+    ),
+    'C19': dict(
+        level='proof',
+        units=['path:list::*', 'nameglob:LIST.*', 'path:item::Item::find'],
+        label_re=r'^C(19|10|15)',
+        all_labels_in_scope=True,
+        explanation='LIST.REMOVE/GET/BVAL/IVAL/FVAL rows with clamped record address; Item::find == nth_kind (n-th point of the requested kind, depth first from the top), bval/ival/fval return it or the type default; '
+                    'load_items only pops from the typed stacks, at most one item per id, and touches nothing else',
+        not_decided=['the exact item sequence collected by load_items (fold over the id vector) and hence the exact record built by LIST.ADD / LIST.SET: only the frame (only-pops) is proved',
+                     'LIST.GET followed by execution restores the items: follows from LIST.GET\'s row and step\'s list/literal arms (C06), not proved as one lemma'],
+    ),
+    'C20': dict(
+        level='proof',
+        units=['path:topology::Topology::decompose_index', 'nameglob:LIST.NEIGHBOR*'],
+        explanation='decompose_index: digits below the edge length, panic-free for an edge length >= 1; LIST.NEIGHBOR* operand handling and result stack',
+        not_decided=['find_neighbors / euclidean_distance (usize as f32, powf, sqrt, ceil): outside Verus; contains-the-centre, symmetry, monotonicity, agreement with brute-force geometry are NOT decided',
+                     'bijectivity of the decomposition (mixed-radix recombination)'],
+    ),
 }
